@@ -295,6 +295,9 @@ impl<'s> Scheduler<'s> {
                 if CANCEL_COROUTINES.contains(&co_id) {
                     _ = CANCEL_COROUTINES.remove(&co_id);
                     warn!("Cancel coroutine:{} successfully !", co_id);
+                    // the coroutine is dropped here and never runs again, so it cannot report
+                    // its own end: tell its listeners (its state does not change)
+                    coroutine.on_cancel(&coroutine, coroutine.state());
                     continue;
                 }
                 cfg_if::cfg_if! {
